@@ -267,6 +267,103 @@ func settle(rec *simnet.Recorder) {
 	}
 }
 
+// Each call runs under a trampoline whose NAME carries the call id, so that the goroutine of call c can be found in
+// a goroutine dump (callState) without relying on any function name of the code under test.
+//
+//go:noinline
+func runCall1(f func()) { f() }
+
+//go:noinline
+func runCall2(f func()) { f() }
+
+//go:noinline
+func runCall3(f func()) { f() }
+
+//go:noinline
+func runCall4(f func()) { f() }
+
+//go:noinline
+func runCall5(f func()) { f() }
+
+//go:noinline
+func runCall6(f func()) { f() }
+
+func runCallN(c int, f func()) {
+	switch c {
+	case 1:
+		runCall1(f)
+	case 2:
+		runCall2(f)
+	case 3:
+		runCall3(f)
+	case 4:
+		runCall4(f)
+	case 5:
+		runCall5(f)
+	default:
+		runCall6(f)
+	}
+}
+
+// callState returns the scheduler state of the goroutine running call c ("select", "chan receive", "runnable", ...;
+// "" if there is none).
+func callState(c int) string {
+	if c < 1 || c > 6 {
+		return ""
+	}
+	buf := make([]byte, 4<<20)
+	n := runtime.Stack(buf, true)
+	name := fmt.Sprintf("main.runCall%d(", c)
+	for _, g := range strings.Split(string(buf[:n]), "\n\n") {
+		if !strings.Contains(g, name) {
+			continue
+		}
+		hdr := strings.SplitN(g, "\n", 2)[0]
+		if i, j := strings.Index(hdr, "["), strings.Index(hdr, "]"); i >= 0 && j > i {
+			st := hdr[i+1 : j]
+			if k := strings.Index(st, ","); k >= 0 {
+				st = st[:k]
+			}
+			return st
+		}
+	}
+	return ""
+}
+
+// codeQuiescent: every goroutine that has a frame of the mosdns module on its stack (calls, readers, dial goroutines,
+// also those created but not yet started) is blocked: nothing of the code under test is running or waiting for a CPU.
+func codeQuiescent() bool {
+	buf := make([]byte, 4<<20)
+	n := runtime.Stack(buf, true)
+	for _, g := range strings.Split(string(buf[:n]), "\n\n") {
+		if !strings.Contains(g, "github.com/IrineSistiana/mosdns/v5/") {
+			continue
+		}
+		hdr := strings.SplitN(g, "\n", 2)[0]
+		i, j := strings.Index(hdr, "["), strings.Index(hdr, "]")
+		if i < 0 || j < i {
+			return false
+		}
+		st := hdr[i+1 : j]
+		if k := strings.Index(st, ","); k >= 0 {
+			st = st[:k]
+		}
+		if !blockedState(st) {
+			return false
+		}
+	}
+	return true
+}
+
+// blockedState: the goroutine waits for something (it is not merely waiting for a CPU)
+func blockedState(st string) bool {
+	switch st {
+	case "", "running", "runnable", "syscall":
+		return false
+	}
+	return true
+}
+
 // transportGoroutines returns, per goroutine id, the functions of pkg/upstream/transport on its stack.
 func transportGoroutines() map[string][]string {
 	buf := make([]byte, 4<<20)
